@@ -89,9 +89,21 @@ package certs
 // A label longer than 252 bytes (block size over one byte) is rejected, not wrapped.
 //@ func (name *Name) WriteTo(w io.Writer) (n int64, err error)
 //@   property C18
-//@   modifies opaque(w)
+//@   modifies spos
 //@   ensures err == nil ==> len(name.Label) <= 252
 //@   ensures len(name.Label) > 252 ==> err != nil && !called(io.Writer.Write)
+// The wire form of a name in the byte-stream model (prelude): block size (label length + 3), type, label length, label.
+//@   ensures err == nil ==> n == 3 + int64(len(name.Label)) && spos == update(old(spos), ref(w), old(spos)[ref(w)] + 3 + len(name.Label))
+//@   ensures err == nil ==> nameAt(ref(w), old(spos)[ref(w)], name) && sbyte(ref(w), old(spos)[ref(w)]) == uint8(len(name.Label) + 3)
+//@ macro nameAt(s, p, nm) = sbyte(s, p + 1) == uint8(nm.Type) && sbyte(s, p + 2) == uint8(len(nm.Label)) && srange(s, p + 3, len(nm.Label)) == bytes(nm.Label)
+// The decoder accepts this form (any block size of at least label length + 3) and returns what it found there.
+//@ func (name *Name) ReadFrom(r io.Reader) (n int64, err error)
+//@   property C18
+//@   modifies name.Type, name.Label, spos
+//@   ensures err == nil ==> n == 3 + int64(len(name.Label)) && spos == update(old(spos), ref(r), old(spos)[ref(r)] + 3 + len(name.Label))
+//@   ensures err == nil ==> nameAt(ref(r), old(spos)[ref(r)], name) && int(sbyte(ref(r), old(spos)[ref(r)])) >= len(name.Label) + 3 && len(name.Label) <= 252
+// (the label is a newly allocated byte slice)
+//@   ensures err == nil ==> fresh(name.Label)
 
 // An id chunk is emitted only if it serialises to at most 512 bytes ...
 //@ func (chunk *IDChunk) WriteTo(w io.Writer) (n int64, err error)
@@ -110,6 +122,16 @@ package certs
 //@ func binary.Read(r io.Reader, order binary.ByteOrder, data any) (err error)
 //@   assume standard library: decodes from r into the target behind data (unknown effect: everything reachable is forgotten)
 //@   modifies *
-//@ func (w io.Writer) Write(p []byte) (n int, err error)
-//@   assume interface contract of io.Writer: changes only the writer's own state
-//@   modifies opaque(w)
+// (the contract of io.Writer.Write is in the prelude: byte-stream model)
+
+// Certificates as a whole: the byte-level layout of the certificate codec is NOT specified (its decoder reads through
+// two io.TeeReaders and an id-chunk loop); assumed here is only that either function moves the stream cursor by exactly
+// the byte count it returns and, for the decoder, that it changes nothing but the certificate it fills.
+//@ func (c *Certificate) WriteTo(w io.Writer) (n int64, err error)
+//@   assume certificate encoding (layout not specified): advances the writer's cursor by the count returned
+//@   modifies spos
+//@   ensures n >= 0 && (err == nil ==> spos == update(old(spos), ref(w), old(spos)[ref(w)] + int(n)))
+//@ func (c *Certificate) ReadFrom(r io.Reader) (n int64, err error)
+//@   assume certificate decoding (layout not specified; C11 covers its safety): advances the reader's cursor by the count returned; changes only the certificate it fills
+//@   modifies *c, spos
+//@   ensures n >= 0 && (err == nil ==> spos == update(old(spos), ref(r), old(spos)[ref(r)] + int(n)))
